@@ -262,12 +262,12 @@ func (t *TimespanType) Parameters() []px.Value {
 		if t.min == math.MinInt64 {
 			return px.EmptyValues
 		}
-		return []px.Value{stringValue(t.min.String())}
+		return []px.Value{stringValue(WrapTimespan(t.min).SerializationString())}
 	}
 	if t.min == math.MinInt64 {
-		return []px.Value{WrapDefault(), stringValue(t.max.String())}
+		return []px.Value{WrapDefault(), stringValue(WrapTimespan(t.max).SerializationString())}
 	}
-	return []px.Value{stringValue(t.min.String()), stringValue(t.max.String())}
+	return []px.Value{stringValue(WrapTimespan(t.min).SerializationString()), stringValue(WrapTimespan(t.max).SerializationString())}
 }
 
 func (t *TimespanType) ReflectType(c px.Context) (reflect.Type, bool) {
